@@ -894,6 +894,23 @@ def append_loops_function(fn) -> int:
         while i < len(stmts):
             st = stmts[i]
             nxt = stmts[i + 1] if i + 1 < len(stmts) else None
+            # x = {} ; for t in S: x[K] = V   ->   x = {K: V for t in S}
+            if isinstance(st, (ast.Assign, ast.AnnAssign)) and isinstance(getattr(st, "value", None), ast.Dict) and not st.value.keys and isinstance(nxt, ast.For) and not nxt.orelse and len(nxt.body) == 1:
+                tg = st.targets if isinstance(st, ast.Assign) else [st.target]
+                inner = nxt.body[0]
+                if len(tg) == 1 and isinstance(tg[0], ast.Name) and isinstance(inner, ast.Assign) and len(inner.targets) == 1 and isinstance(inner.targets[0], ast.Subscript) and isinstance(inner.targets[0].value, ast.Name) and inner.targets[0].value.id == tg[0].id:
+                    x = tg[0].id
+                    loopvars = {n.id for n in ast.walk(nxt.target) if isinstance(n, ast.Name)}
+                    in_loop = sum(1 for n in ast.walk(nxt) if isinstance(n, ast.Name) and n.id == x)
+                    lv_total = {v: allnames.get(v, 0) for v in loopvars}
+                    lv_loop = {v: sum(1 for n in ast.walk(nxt) if isinstance(n, ast.Name) and n.id == v) for v in loopvars}
+                    if in_loop == 1 and all(lv_total[v] == lv_loop[v] for v in loopvars) and not any(isinstance(n, (ast.Yield, ast.YieldFrom, ast.Await, ast.NamedExpr)) for n in ast.walk(nxt)):
+                        comp = ast.DictComp(key=inner.targets[0].slice, value=inner.value, generators=[ast.comprehension(target=nxt.target, iter=nxt.iter, ifs=[], is_async=0)])
+                        st.value = ast.copy_location(comp, nxt)
+                        out.append(st)
+                        done += 1
+                        i += 2
+                        continue
             if isinstance(st, (ast.Assign, ast.AnnAssign)) and isinstance(getattr(st, "value", None), ast.List) and not st.value.elts and isinstance(nxt, ast.For) and not nxt.orelse and len(nxt.body) == 1:
                 tg = st.targets if isinstance(st, ast.Assign) else [st.target]
                 if len(tg) == 1 and isinstance(tg[0], ast.Name):
